@@ -732,7 +732,7 @@ def complete_ensemble_sift(X, nensembles=4, ensemble_noise=.2,
     noise_scaling = X.std() * ensemble_noise
 
     continue_sift = True
-    layer = 0
+    layer = 1  # The first IMF is computed before the main loop
 
     # Compute the noise processes - large matrix here...
     noise = np.random.random_sample((X.shape[0], nensembles)) * noise_scaling
@@ -747,6 +747,9 @@ def complete_ensemble_sift(X, nensembles=4, ensemble_noise=.2,
     args = [(noise[:, ii, None], sift_thresh, 1, imf_opts) for ii in range(nensembles)]
     res = p.starmap(sift, args)
     noise = noise - np.array([r[:, 0] for r in res]).T
+
+    if max_imfs is not None and layer >= max_imfs:
+        continue_sift = False
 
     while continue_sift:
 
@@ -769,13 +772,13 @@ def complete_ensemble_sift(X, nensembles=4, ensemble_noise=.2,
         if len(pks) < 2:
             continue_sift = False
 
-        if max_imfs is not None and layer == max_imfs:
+        layer += 1
+
+        if max_imfs is not None and layer >= max_imfs:
             continue_sift = False
 
         if np.abs(next_imf).mean() < sift_thresh:
             continue_sift = False
-
-        layer += 1
 
     p.close()
 
